@@ -136,7 +136,12 @@ class Context:
 
     def _console_log(self, *args: JSValue) -> None:
         """Console.log implementation."""
-        print(" ".join(to_string(arg) for arg in args))
+        text = " ".join(to_string(arg) for arg in args)
+        try:
+            print(text)
+        except UnicodeEncodeError:
+            # a lone surrogate (or a character the output encoding lacks) is escaped
+            print(text.encode("utf-8", "backslashreplace").decode("utf-8"))
 
     def _create_object_constructor(self) -> JSCallableObject:
         """Create the Object constructor with static methods."""
